@@ -53,7 +53,7 @@ ASSUMPTIONS = [
     "dataset reading is avoided (missing dataset file): update_source's dataset branch is outside this check",
 ]
 
-_N = {"quick": 1200, "thorough": 30000}
+_N = {"quick": 1200, "thorough": 10000}
 
 
 def budget(tier):
